@@ -90,6 +90,11 @@ def _prefix_actions(f, loop):
     for s in f.ch(body):
         if f.k(s) == "IfStmt":
             break
+        # the status variable is cleared before the card is read (cfitsio routines do nothing when entered with a non-zero status:
+        # without the reset one unreadable card would make every later card be skipped)
+        ap = ts.assign_parts(f, f.strip(s)) if f.k(f.strip(s)) == "BinaryOperator" else None
+        if ap and ap[1] is not None and f.nodes[f.strip(ap[1])].get("cv") == 0 and f.k(f.strip(ap[0])) == "DeclRefExpr":
+            out.append("reset:" + ("status" if "int" in f.nodes[f.strip(ap[0])].get("t", "int") else "?"))
         for i, cal in f.calls(s):
             if cal:
                 out.append(f.call_macro(i) or cal["name"])
@@ -135,7 +140,8 @@ def fs4(P, C):
     sigs = [(_prefix_actions(f, L), _skip_conditions(f, L)) for (f, L, tag) in loops]
     base = sigs[0]
     for n, ((f, L, tag), sg) in enumerate(zip(loops, sigs)):
-        ok = sg[1] == base[1] and [a for a in sg[0] if a.startswith("fits_")] == [a for a in base[0] if a.startswith("fits_")] and len(sg[1]) >= 2
+        ok = sg[1] == base[1] and [a for a in sg[0] if a.startswith(("fits_", "reset:"))] == [a for a in base[0] if a.startswith(("fits_", "reset:"))] and \
+            len(sg[1]) >= 2 and "reset:status" in sg[0] and sg[0].index("reset:status") < min([k for k, a in enumerate(sg[0]) if a.startswith("fits_")] or [99])
         C.ob("FS-4", f.name, "skip-conditions#%d" % n, ok, f.loc(L),
              "%s pass %d reads a card (%s) and skips it when %s; reference: %s" % (tag, n, sg[0], sg[1], base[1]))
     # the counting pass bounds the filling pass: fill loop is limited by i < naux
